@@ -19,8 +19,19 @@ theorems apply at every nesting depth.
 
 `Accepted len ps w` means: one of the three constructors, applied to the caller's
 list `ps`, returned the wrapper `w`.  64-bit `usize` is assumed.
+
+Sink-call level (second half of the file): `Wrapper.encodePieces` is
+`MessageWrapper::encode` as the SEQUENCE OF `ZeroCopySink` CALLS it makes
+(`append_copy` of each header word; per value `append_borrow` for `Cow::Borrowed`,
+`append_copy` for `Cow::Owned` / `&[u8]` / `&str`, the nested call sequence for a
+message); values are seen through `calls : V → Option (List Piece)` (`none` = the
+value's `to_rough_tlv` panics) and `bytesOf calls` is the byte-level `bytes` of the
+first half.  The lawfulness hypothesis `hl` of the first half is discharged for
+the value type of the `tlv` correspondence family (`dval_lawful`) and for nested
+messages of every depth (`nested_lawful_every_depth`).
 -/
-import Woodpile.Proofs.RoughTlvRt
+import Woodpile.Proofs.RoughTlvSink
+import Woodpile.Props.C12
 
 namespace Woodpile.Props.C11
 open Woodpile.RoughTlv
@@ -156,6 +167,35 @@ theorem view_find (bytes : V → List UInt8) (len : V → Nat) (ps : List (Pair 
     obtain ⟨q, hq, hqt, hqv⟩ := hA v hr'
     rw [← hqv, hall q hq hqt]
 
+/-- `find_tag` on the emitted bytes (the audit's "nothing on `find_tag`"), for any
+acceptable search: it does not panic; an index it returns is the position, in the stably
+sorted list, of a pair the caller stored under exactly the tag `t`, and `find(t)` is that
+pair's bytes; it returns nothing only if no pair carries `t`. -/
+theorem view_find_tag (bytes : V → List UInt8) (len : V → Nat) (ps : List (Pair V))
+    (w : Wrapper V) (h : Accepted len ps w) (hl : ∀ p ∈ ps, len p.2 = (bytes p.2).length)
+    (s : List Nat → Nat → Option (Option Nat)) (hs : IsSearch s) (t : Nat) :
+    ∃ out r, w.encode bytes len = some out ∧ (View.mk out).findTagWith s t = some r ∧
+      (∀ i, r = some i → ∃ p, (sortByTag ps)[i]? = some p ∧ p.1.toNat = t ∧
+        (View.mk out).findWith s t = some (some (bytes p.2))) ∧
+      (r = none → ∀ p ∈ ps, p.1.toNat ≠ t) := by
+  obtain ⟨out, h1, hacc⟩ := view_accepts bytes len ps w h hl
+  obtain ⟨out', h1', _, _, _, hget, _⟩ := view_roundtrip bytes len ps w h hl
+  rw [h1] at h1'; cases h1'
+  obtain ⟨r, hr, hsome, hnone⟩ := Woodpile.Props.C12.find_tag_sound s hs out ⟨out⟩ hacc t
+  refine ⟨out, r, h1, hr, ?_, ?_⟩
+  · intro i hi
+    obtain ⟨_, val, hg, _, hf⟩ := hsome i hi
+    rw [hget i] at hg
+    simp only [Option.some.injEq, List.getElem?_map, Option.map_eq_some_iff, Prod.mk.injEq] at hg
+    obtain ⟨p, hp, hpt, hpv⟩ := hg
+    exact ⟨p, hp, hpt, by rw [hf, hpv]⟩
+  · intro hn p hp hpt
+    obtain ⟨hno, _⟩ := hnone hn
+    have hmem : p ∈ sortByTag ps := (sortByTag_perm ps).mem_iff.mpr hp
+    obtain ⟨i, hi⟩ := List.getElem?_of_mem hmem
+    have := hno i (p.1.toNat, bytes p.2) (by rw [hget i]; simp [hi])
+    exact this hpt
+
 /-- `new` (and `new_from_slice`) reject exactly the lists whose pair count, some
 single value length, or total encoded length (count word + `N-1` offsets + `N`
 tags + values, in unbounded arithmetic) exceeds `i32::MAX`. -/
@@ -224,6 +264,144 @@ theorem sorted_reject_iff (len : V → Nat) (ps : List (Pair V)) :
           (by omega) (by simp [ha]) (by simp [hb])
         unfold key at this; omega
 
+/-- **Which error** (the audit's "error variant not stated").  With `es` the list the
+constructor sums over (the stable sort for `new` / `new_from_slice`, the caller's list for
+`new_from_sorted`): `new_from_sorted` first reports `NonMonotonicTags(i, tag_i, tag_{i+1})`
+at the FIRST decrease; otherwise every constructor reports `TooManyElements(N)` if the
+count exceeds `i32::MAX`; else `ValueTooLarge(rank, len)` for the FIRST value whose length
+does (rank in `es`, as the `u32` the code casts it to); else `TotalTooLarge(N, total)` with
+the total saturated at `usize::MAX`. -/
+theorem reject_error_kind (len : V → Nat) (ps : List (Pair V)) (e : EncErr) :
+    let kinds := fun (es : List (Pair V)) =>
+      (es.length > i32Max ∧ e = .tooManyElements es.length) ∨
+      (es.length ≤ i32Max ∧ ∃ r p, es[r]? = some p ∧ len p.2 > i32Max ∧
+        (∀ j q, j < r → es[j]? = some q → len q.2 ≤ i32Max) ∧
+        e = .valueTooLarge (r % 4294967296) (len p.2)) ∨
+      (es.length ≤ i32Max ∧ (∀ p ∈ es, len p.2 ≤ i32Max) ∧
+        4 + 4 * (es.length - 1) + 4 * es.length + (es.map (fun p => len p.2)).sum > i32Max ∧
+        e = .totalTooLarge (es.length % 4294967296)
+          (min (4 + 4 * (es.length - 1) + 4 * es.length + (es.map (fun p => len p.2)).sum) usizeMax))
+    (Wrapper.new len ps = .error e → kinds (sortByTag ps)) ∧
+    (Wrapper.newFromSlice len ps = .error e → kinds (sortByTag ps)) ∧
+    (Wrapper.newFromSorted len ps = .error e →
+      (∃ i a b, ps[i]? = some a ∧ ps[i + 1]? = some b ∧ a.1.toNat > b.1.toNat ∧
+        List.Pairwise (· ≤ ·) ((ps.take (i + 1)).map (fun p => p.1.toNat)) ∧
+        e = .nonMonotonicTags i a.1.toNat b.1.toNat) ∨
+      (List.Pairwise (· ≤ ·) (ps.map (fun p => p.1.toNat)) ∧ kinds ps)) := by
+  intro kinds
+  have hk : ∀ es, mkWrapper len es = .error e → kinds es := by
+    intro es h
+    have : computeLen len es = .error e := by
+      unfold mkWrapper at h
+      cases hc : computeLen len es with
+      | error e' => rw [hc] at h; simpa using h
+      | ok n => rw [hc] at h; cases h
+    exact computeLen_error_kind len es e this
+  refine ⟨hk _, hk _, ?_⟩
+  intro h
+  unfold Wrapper.newFromSorted at h
+  cases hfd : firstDecrease (ps.map key) 0 with
+  | none =>
+    rw [hfd] at h
+    exact Or.inr ⟨(firstDecrease_none_iff _ 0).mp hfd, hk ps h⟩
+  | some x =>
+    obtain ⟨i, a, b⟩ := x
+    rw [hfd] at h
+    simp only [Except.error.injEq] at h
+    obtain ⟨_, h2, h3, h4, h5⟩ := firstDecrease_some _ 0 i a b hfd
+    simp only [Nat.sub_zero, List.getElem?_map, Option.map_eq_some_iff] at h2 h3
+    obtain ⟨pa, hpa, rfl⟩ := h2
+    obtain ⟨pb, hpb, rfl⟩ := h3
+    left
+    refine ⟨i, pa, pb, hpa, hpb, h4, ?_, h.symm⟩
+    rw [List.map_take]; exact h5
+
+/-! ### The sink-call level: borrowed / owned values, any `ZeroCopySink` -/
+
+open Woodpile.Hcobs (Method)
+
+/-- **The calls concatenate to the flat encoding.**  Whatever the values do
+(`calls`), if `encode` makes the calls `cs` on its sink then the byte-level encoder of
+the theorems above returns their concatenation; and when no value panics the two
+have the same verdict, `(encodePieces …).map flat = encode …` (`flat cs` is
+`cs.flatMap (·.2)`). -/
+theorem encode_pieces_flat (calls : V → Option (List Piece)) (len : V → Nat) (w : Wrapper V) :
+    (∀ cs, w.encodePieces calls len = some cs → w.encode (bytesOf calls) len = some (flat cs)) ∧
+    ((∀ p ∈ w.entries, (calls p.2).isSome = true) →
+      (w.encodePieces calls len).map flat = w.encode (bytesOf calls) len) ∧
+    (∀ cs : List Piece, flat cs = cs.flatMap (·.2)) :=
+  ⟨fun cs h => encodePieces_flat calls len w cs h, encodePieces_map_flat calls len w, flat_eq_flatMap⟩
+
+/-- **The call sequence of an accepted list**, for values that do not panic: with
+`es := stable sort of ps`, exactly `append_copy(N)`; `append_copy(offset_i)` for the
+`N-1` cumulative end offsets; `append_copy(tag_i)` for the `N` tags in ascending
+order; then every value's own calls, in order (a borrowed `Cow` is one
+`append_borrow` of its bytes, an owned one / a slice / a string one `append_copy`, a
+nested message its own call sequence).  No `assert!` fires. -/
+theorem encode_calls_layout (calls : V → Option (List Piece)) (len : V → Nat) (ps : List (Pair V))
+    (w : Wrapper V) (h : Accepted len ps w) (hs : ∀ p ∈ ps, (calls p.2).isSome = true) :
+    let es := sortByTag ps
+    w.encodePieces calls len = some (
+      ((Method.copy, le32 es.length) : Piece)
+      :: (List.range (es.length - 1)).map
+            (fun i => ((Method.copy, le32 ((es.take (i + 1)).map (fun p => len p.2)).sum) : Piece))
+      ++ es.map (fun p => ((Method.copy, le32 p.1.toNat) : Piece))
+      ++ (es.map (fun p => (calls p.2).getD [])).flatten) := by
+  intro es
+  have he : w.entries = es := h.spec.1
+  rw [h.calls_eq hs, he]
+  unfold callLayout
+  rw [offsetsSpec_eq]
+  simp only [List.length_map, List.map_map, Function.comp_def, ← List.map_take]
+  rfl
+
+/-- Call-level `len_eq`: over lawful, non-panicking values the calls hand the sink
+exactly `rough_tlv_len()` bytes, and they are the layout of `encode_layout`. -/
+theorem calls_len_eq (calls : V → Option (List Piece)) (len : V → Nat) (ps : List (Pair V))
+    (w : Wrapper V) (h : Accepted len ps w) (hl : ∀ p ∈ ps, CallsLawful calls len p.2)
+    (hs : ∀ p ∈ ps, (calls p.2).isSome = true) :
+    ∃ cs, w.encodePieces calls len = some cs ∧ w.encode (bytesOf calls) len = some (flat cs) ∧
+      (flat cs).length = w.tlvLen :=
+  h.calls hl hs
+
+/-- **Nesting, every depth.**  `NV d` is the type of values nested at most `d` deep
+(leaves: byte strings handed over by either sink method; inner nodes: messages);
+`NV.Ok` says every message inside was returned by a constructor.  Every such value
+is lawful - what it reports as `rough_tlv_len` is the number of bytes its calls
+write - and never panics.  (Structural induction on `d`; the step is the call-level
+`nested_lawful`.)  So `hl` holds for every list of `Ok` values of any depth. -/
+theorem nested_lawful_every_depth (d : Nat) (v : NV d) (h : NV.Ok d v) :
+    CallsLawful (NV.calls d) (NV.len d) v ∧ (NV.calls d v).isSome = true ∧
+    NV.len d v = (bytesOf (NV.calls d) v).length :=
+  ⟨NV.lawful d v h, NV.calls_isSome d v h, (NV.lawful d v h).bytes (NV.calls_isSome d v h)⟩
+
+/-- **`hl` discharged for the `tlv` family.**  In every state the family's state
+machine (`TlvSt.msg`, the function the model driver executes) can reach, every
+stored message was returned by a constructor on a list of lawful values; if it
+contains no never-encoded fake, the list satisfies the hypothesis `hl` of
+`encode_layout`, `len_eq`, `view_accepts`, `view_roundtrip`, `view_find`
+(`bytes := DVal.bytes`, `len := DVal.len`), none of its values panics, the encoder
+makes its calls (the driver's `panic` answer to `enc` is dead) and `MessageView`
+accepts what they write. -/
+theorem dval_lawful (s : TlvSt) (hr : TlvReach s) (i : Nat) (w : Wrapper DVal)
+    (hi : s.slots[i]? = some (some w)) :
+    (∃ ps, Accepted DVal.len ps w ∧ ∀ p ∈ ps, p.2.Lawful) ∧
+    (hasFake w = false →
+      ∃ ps, Accepted DVal.len ps w ∧ (∀ p ∈ ps, DVal.len p.2 = (DVal.bytes p.2).length) ∧
+        (∀ p ∈ ps, (DVal.calls p.2).isSome = true) ∧
+        ∃ cs, w.encodePieces DVal.calls DVal.len = some cs ∧
+          w.encode DVal.bytes DVal.len = some (flat cs) ∧ (flat cs).length = w.tlvLen ∧
+          View.new (flat cs) = some (.ok ⟨flat cs⟩)) := by
+  have hok := hr.slotOK i w hi
+  refine ⟨hok, fun hf => ?_⟩
+  obtain ⟨ps, ha, hl, hcl, hs⟩ := hok.hyps hf
+  obtain ⟨cs, h1, h2, h3⟩ := ha.calls hcl hs
+  obtain ⟨out, h4, h5⟩ := view_accepts DVal.bytes DVal.len ps w ha hl
+  rw [bytesOf_dval] at h2
+  rw [h2] at h4
+  cases h4
+  exact ⟨ps, ha, hl, hs, cs, h1, h2, h3, h5⟩
+
 end Woodpile.Props.C11
 
 namespace Woodpile.Props.C11
@@ -264,5 +442,29 @@ example : Wrapper.new Wrapper.tlvLen [((128 : UInt32), Wrapper.mk 13 [((7 : UInt
 example : (Wrapper.mk 21 [((128 : UInt32), Wrapper.mk 13 [((7 : UInt32), [(9 : UInt8)])])]).encode
       (Wrapper.bytes id List.length) Wrapper.tlvLen
     = some [1,0,0,0, 128,0,0,0, 1,0,0,0, 7,0,0,0, 9] := by decide
+
+-- The sink-call level.  The crate's Cow test (`test_encode_cow_miri`): a borrowed and an owned value.
+example : (Wrapper.mk 23 [((1 : UInt32), DVal.mk (some [(.borrow, [97,115,100])]) 3),
+      (2, DVal.mk (some [(.copy, [122,120,99,118])]) 4)]).encodePieces DVal.calls DVal.len
+    = some [(.copy, [2,0,0,0]), (.copy, [3,0,0,0]), (.copy, [1,0,0,0]), (.copy, [2,0,0,0]),
+        (.borrow, [97,115,100]), (.copy, [122,120,99,118])] := by decide
+-- a value that panics makes `encode` panic; an empty borrowed value is still a call
+example : (Wrapper.mk 12 [((1 : UInt32), DVal.mk none 0)]).encodePieces DVal.calls DVal.len = none := by decide
+example : (Wrapper.mk 12 [((1 : UInt32), DVal.mk (some [(.borrow, [])]) 0)]).encodePieces DVal.calls DVal.len
+    = some [(.copy, [1,0,0,0]), (.copy, [1,0,0,0]), (.borrow, [])] := by decide
+-- the family's state machine: two leaves, then a message nesting slot 0 twice (by reference and as a view)
+example :
+    ((TlvSt.init.msg .new [(2, .bytes .borrow [7]), (1, .bytes .copy [])]).bind fun (s, _) =>
+      (s.msg .sorted [(5, .msg 0), (6, .view 0)]).map fun (s', r) => (s'.slots.length, r.toOption.map (·.len))) =
+    some (2, some 50) := by decide
+example : TlvReach (TlvSt.mk [some ⟨17, [(1, ⟨some [(.copy, [])], 0⟩), (2, ⟨some [(.borrow, [7])], 1⟩)]⟩]) :=
+  .msg (s := TlvSt.init) (c := .new) (items := [(2, .bytes .borrow [7]), (1, .bytes .copy [])])
+    (r := .ok ⟨17, [(1, ⟨some [(.copy, [])], 0⟩), (2, ⟨some [(.borrow, [7])], 1⟩)]⟩) .init (by decide)
+-- a depth-2 value: a message holding a leaf and a message holding a leaf
+example : NV.calls 2 (.inr ⟨29, [(1, .inl (.borrow, [9])), (2, .inr ⟨9, [(3, (.copy, [8]))]⟩)]⟩)
+    = some [(.copy, [2,0,0,0]), (.copy, [1,0,0,0]), (.copy, [1,0,0,0]), (.copy, [2,0,0,0]), (.borrow, [9]),
+        (.copy, [1,0,0,0]), (.copy, [3,0,0,0]), (.copy, [8])] := by decide
+example : NV.Ok 1 (.inr ⟨9, [(3, (.copy, [8]))]⟩) :=
+  ⟨[(3, (.copy, [8]))], Or.inl (by rfl), by simp [NV.Ok]⟩
 
 end Woodpile.Props.C11
